@@ -9,7 +9,8 @@ LEVEL = "exploration"
 ORACLES = ("wcag", "csscolor")
 RULE = ("pairs with ratio in [0.3,0.9]x minimum (need several default-mode steps), near-threshold pairs, mid-tone backgrounds, "
         "random spelling; all 12 (mode,large,very_readable) configurations per pair. Relations: mode1 success => mode2 returns the "
-        "identical (colour, True); very_readable success => ordinary success for the same mode/size. Non-trivial = pair below the "
+        "identical (colour, True); very_readable success => ordinary success for the same mode/size; an extra shard of vivid-text pairs whose fix lies against the lightness "
+        "search's direction (premise: the ~2% of them that mode 1 repairs). Non-trivial = pair below the "
         "minimum for which the stronger request succeeded with a changed colour; distinct = (text,bg,large,relation).")
 ASSUMPTIONS = ["the library itself under the other setting is the reference (differential)"]
 ENUMERATED = {"quick": [], "thorough": ["every third grey level squared x all 12 configurations"]}
